@@ -114,8 +114,12 @@ def build(scratch, seed=None):
         n += 1
         imports.append('\t%s "%s"' % (alias, e["go_pkg"]))
         for m in e["messages"]:
-            regs.append('\t\t{Key: "%s/%s/%s/%s", Set: "%s", Flavour: "%s", Base: "%s", GoName: "%s", New: func() interface{} { return new(%s.%s) }},'
-                        % (e["set"], e["flavour"], e["base"], m["goname"], e["set"], e["flavour"], e["base"], m["goname"], alias, m["goname"]))
+            exts = ""
+            if e["base"] == "p2ext" and m["goname"] == "Base":
+                kinds = ["int32", "int64", "uint64", "sint32", "sint64", "fixed32", "fixed64", "bool", "string", "bytes", "double", "float", "msg", "enum"]
+                exts = ", Exts: map[string]interface{}{" + ", ".join('"%s": %s.E_Decl_E%s' % (k, alias, k[0].upper() + k[1:]) for k in kinds) + "}"
+            regs.append('\t\t{Key: "%s/%s/%s/%s", Set: "%s", Flavour: "%s", Base: "%s", GoName: "%s", New: func() interface{} { return new(%s.%s) }%s},'
+                        % (e["set"], e["flavour"], e["base"], m["goname"], e["set"], e["flavour"], e["base"], m["goname"], alias, m["goname"], exts))
     drv = os.path.join(d, "cmd", "drv")
     os.makedirs(drv, exist_ok=True)
     src = "// Code generated by bin/corpus.py. DO NOT EDIT.\npackage main\n\nimport (\n\t\"verif/harness/msgdrv\"\n" + "\n".join(imports) + \
